@@ -35,6 +35,9 @@ def run(rep, tier):
     fallbacks(rep, F)
     ring_step(rep, F)
     weights(rep, F)
+    # add_triangle / add_rect / add_polygon dispatch degenerate shapes on HasDimensions (tables shared with C01)
+    from . import dims
+    dims.run(rep, F, "R6.7")
 
 
 DIMS = ["Empty", "ZeroDimensional", "OneDimensional", "TwoDimensional"]
